@@ -304,8 +304,44 @@ def cmp_oracle(chk, sig, what, case, impl, ref, oscale):
 CHECK_1D_COUNT = [0]
 
 
+def check_1d_element_types(chk, sp, rng):
+    """splines whose coefficients are complex, integer or single-precision numbers (`Spline1D(basis, dtype)` accepts any element type):
+    value and derivative through the array / in-place entry points are those of the same coefficients held as float64 (for complex
+    coefficients: of the real and of the imaginary part)"""
+    from pygyro.splines.splines import Spline1D
+    xs = sp.xs(rng, 3)
+    cr = sp.wrap(np.array([float(rng.randint(-3, 3)) for _ in range(sp.ncoef)]))
+    ci = sp.wrap(np.array([float(rng.randint(-3, 3)) + 0.125 for _ in range(sp.ncoef)]))
+    sr, si = Spline1D(sp.b), Spline1D(sp.b)
+    sr.coeffs[:] = cr
+    si.coeffs[:] = ci
+    for der in (0, 1):
+        wr = np.array([float(sr.eval(float(x), der)) for x in xs])
+        wi = np.array([float(si.eval(float(x), der)) for x in xs])
+        tol = ORACLE_RTOL * sp.oscale(4.0, der)
+        ok_pts = np.array([not (der and sp.deg == 1 and not sp.discont_ok(x)) for x in xs])
+        for tag, dtype, coeffs, want in (('complex', complex, cr + 1j * ci, wr + 1j * wi), ('int64', np.int64, cr.astype(np.int64), wr),
+                                         ('float32', np.float32, ci.astype(np.float32), wi)):
+            s = Spline1D(sp.b, dtype=dtype)
+            s.coeffs[:] = coeffs
+            case = {'space': sp.desc(), 'der': der, 'coefficients_held_as': tag, 'xs': [float(x) for x in xs]}
+            got = guarded(chk, 'Spline1D.eval(array)', case, lambda: np.asarray(s.eval(xs.copy(), der)))
+            if got is not None and not (np.abs(got - want)[ok_pts] <= tol).all():
+                chk.fail('C07:coefficient-type', 'Spline1D(basis, dtype=%s).eval(points, der=%d) is not the spline of those coefficients' % (tag, der),
+                         case, expected=[complex(v) if tag == 'complex' else float(v) for v in want], actual=[complex(v) if tag == 'complex' else float(np.real(v)) for v in got])
+            if tag == 'complex':
+                y = np.full(len(xs), np.nan + 0j)
+                okv = guarded(chk, 'Spline1D.eval_vector', case, lambda: (s.eval_vector(xs.copy(), y, der), True)[1])
+                if okv and not (np.abs(y - want)[ok_pts] <= tol).all():
+                    chk.fail('C07:coefficient-type', 'Spline1D(basis, dtype=complex).eval_vector(x, y, der=%d) is not the spline of those coefficients' % der,
+                             case, expected=[complex(v) for v in want], actual=[complex(v) for v in y])
+    chk.count('1-D splines with complex / integer / single-precision coefficients')
+
+
 def check_1d(chk, drv, sp, rng, nrand):
     from pygyro.splines.splines import Spline1D
+    if CHECK_1D_COUNT[0] % 3 == 1:
+        check_1d_element_types(chk, sp, rng)
     s = Spline1D(sp.b)
     c = np.array([rng.uniform(-2, 2) for _ in range(sp.ncoef)])
     # on every other periodic space the caller fills ALL the ncells + degree coefficients the object exposes, without making the last
